@@ -1,7 +1,7 @@
 SPECIFICATION Spec
 CONSTANTS
   FirstStatuses = {200, 404, 300, 301, 302, 303, 304, 305, 307, 308, 399}
-  NextStatuses = {200, 404, 301, 302, 303, 307, 308}
+  NextStatuses = {200, 204, 304, 404, 301, 302, 303, 307, 308}
   MaxSteps = 2
   MaxRedirs = {0, 1, 2, 3}
 INVARIANT ResolutionOK
